@@ -1,6 +1,7 @@
 """All sidecar contracts and the per-property target lists."""
 from vlib.vc import contracts_bdd as CB
 from vlib.vc import contracts_autoref as CA_  # noqa: F401 (registers contracts)
+from vlib.vc import contracts_parser as CP_
 from vlib.vc.contracts_bdd import REG, SPELLINGS  # noqa
 
 _installed = False
@@ -73,12 +74,14 @@ TARGETS = {
             T(B + 'let', B + 'let:bool', variant='constants', args={'definitions': 'dict:name->bool'}),
             T(B + 'let', B + 'let:int', variant='functions', args={'definitions': 'dict:name->int'}),
             T(B + 'let', B + 'let:name', variant='names', args={'definitions': 'dict:name->name'})],
+    'C05': list(CP_.TARGETS),
     'C06': [T(B + 'incref'), T(B + 'decref'), T(B + 'ref'), T(B + 'find_or_add')] + GC,
     'C08': HANDLES + [T(ABD + 'var'), T(ABD + 'ite'), T(ABD + 'quantify'), T(ABD + 'forall'), T(ABD + 'exist'), T(ABD + 'succ'),
                       T(AF + 'low'), T(AF + 'high')] + aapply_targets(['not', '&', 'ite', 'forall']) + AOPS[:7],
     'C09': PLUMBING + [T(B + 'ite', B + 'ite!body'), T(B + 'var', B + 'var!body'), T(B + 'rename', B + 'rename!body'),
                        T('dd.bdd.copy_bdd', variant='two-managers')],
-    'C10': [T(B + 'is_essential')],
+    'C10': [T(B + 'is_essential'), T(B + '_support'), T(B + 'support', B + 'support!proved:names', variant='names'),
+            T(B + 'support', B + 'support!proved:levels', variant='levels')],
     'C11': [T('dd.bdd._copy_bdd', variant='two-managers'), T('dd.bdd.copy_bdd', variant='two-managers'),
             T('dd.bdd.copy_bdd', variant='same-manager', alias={'from_bdd': 'to_bdd'}), T(B + 'copy', variant='two-managers')],
     'C14': [T(B + 'add_var'), T(B + '_check_var'), T(B + '_next_free_level'), T(B + '_init_terminal'), T(B + 'declare'),
